@@ -784,8 +784,8 @@ class StmtMixin:
             saved_results = self.results
             self.results = []
             self.defer_depth = getattr(self, "defer_depth", 0) + 1
-            self._loop_counter0 = counter_value()
-            self._loop_alloc0 = st.alloc
+            loop_counter0 = counter_value()
+            loop_alloc0 = st.alloc
             hav = st.clone()
             self.apply_havoc(hav, written, targets - set(inv.locals_), entry)
             if kind == "for":
@@ -811,6 +811,7 @@ class StmtMixin:
                         {k: len(o.data) for k, o in hav.objs.items()}, len(hav.log))
                 finals = []
                 outs += self.run_loop_from(node, hav, inv, kind, iterable, idx_name, seen_name, entry, base, finals)
+                self._loop_counter0, self._loop_alloc0 = loop_counter0, loop_alloc0
                 if self.observe_writes(finals, snap, written):
                     grew = True
             self.defer_depth -= 1
@@ -1092,7 +1093,7 @@ class StmtMixin:
     def loop_init_ghost(self, st, it, idx_name, seen_name):
         st.frame.vars[idx_name] = VInt(0)
         if isinstance(it, VAbs):
-            st.frame.vars[seen_name] = VAbs(z3.K(it.elem.comps[0], z3.BoolVal(False)), z3.IntVal(0), it.elem)
+            st.frame.vars[seen_name] = VAbs(z3.K(it.mem.sort().domain(), z3.BoolVal(False)), z3.IntVal(0), it.elem)
 
     def loop_havoc_ghost(self, st, it, idx_name, seen_name):
         i = fresh_const("loop_i", ty.IntS)
@@ -1103,7 +1104,7 @@ class StmtMixin:
             seen = fresh_const("loop_seen", it.mem.sort())
             st.frame.vars[seen_name] = VAbs(seen, i, it.elem)
             st.qhyps.append(__import__("pyvc.state", fromlist=["QHyp"]).QHyp(
-                it.elem.comps[0], lambda k, seen=seen, mem=it.mem: z3.Implies(z3.Select(seen, k), z3.Select(mem, k)), "seen-subset"))
+                it.mem.sort().domain(), lambda k, seen=seen, mem=it.mem: z3.Implies(z3.Select(seen, k), z3.Select(mem, k)), "seen-subset"))
 
     def iter_len(self, it, st):
         if isinstance(it, VAbs):
@@ -1119,6 +1120,10 @@ class StmtMixin:
             return st.map_len(it)
         if isinstance(it, VRef) and isinstance(it.T, ty.Lst):
             return z3.Length(st.lst_get(it))
+        if isinstance(it, VObj):
+            f = z3.Function("obj_len", ty.IntS, ty.IntS)
+            st.assume(f(it.t) >= 0)
+            return f(it.t)
         raise EngineError(f"iteration over {it!r}")
 
     def loop_next(self, st, it, idx_name, seen_name):
@@ -1129,18 +1134,17 @@ class StmtMixin:
             return []
         st.assume(i < n)
         if isinstance(it, VAbs):
-            x = fresh_const("item", it.elem.comps[0])
+            x = fresh_const("item", it.mem.sort().domain())
             seen = st.frame.vars[seen_name]
             st.assume(z3.Select(it.mem, x))
             if it.src and it.src[0] in ("keys", "items"):
                 # the keys of a dict are pairwise distinct: each is visited once
                 st.assume(z3.Not(z3.Select(seen.mem, x)))
-            if it.src is None or it.src[0] not in ("sorted",):
-                pass
-            item = unflatten(it.elem, (x,))
-            st._typing(item, it.elem)
+            item = self._abs_item(it, x, st)
+            if not isinstance(it.elem, ty.Tup):
+                st._typing(item, it.elem)
             st.frame.vars["__item"] = item
-            return [(st, self._abs_item(it, x, st))]
+            return [(st, item)]
         if isinstance(it, VSeq):
             return [(st, unflatten(it.elem, (it.t[i],)))]
         if isinstance(it, VFn) and it.kind == "range":
@@ -1151,6 +1155,9 @@ class StmtMixin:
             k = fresh_const("key", it.T.key.comps[0])
             st.assume(st.map_has(it, k))
             return [(st, unflatten(it.T.key, (k,)))]
+        if isinstance(it, VObj):
+            self.abstractions.add("iteration over an opaque iterable: an unknown number of opaque items")
+            return [(st, VObj(fresh_const("item", ty.IntS)))]
         raise EngineError(f"iteration over {it!r}")
 
     def _abs_item(self, it, x, st):
@@ -1182,6 +1189,6 @@ class StmtMixin:
             from .state import QHyp
             # distinct elements: after len iterations everything was seen
             if not (it.src and it.src[0] == "nodistinct"):
-                st.qhyps.append(QHyp(it.elem.comps[0], lambda k, seen=seen.mem, mem=it.mem:
+                st.qhyps.append(QHyp(it.mem.sort().domain(), lambda k, seen=seen.mem, mem=it.mem:
                                      z3.Implies(z3.Select(mem, k), z3.Select(seen, k)), "seen-all"))
         return [st]
